@@ -17,23 +17,34 @@ MANIFEST = {
             "connection table); queries run iff the id is in the table (issued and not closed) - forged, closed and foreign-closed "
             "ids get 401 and change nothing, only the owner's address can close; DELETE => COMPROMISED, ENCRYPT => CORRUPT, SELECT on "
             "COMPROMISED data fails and the file leaves COMPROMISED only through a successful restore, an ENCRYPT or deletion; "
-            "a backup taken while GOOD restores to GOOD; with the service not running, the node not ON or the request path "
-            "blocked, connect/query/disconnect/backup/restore fail and leave the server unchanged; capacity boundary; "
-            "wrong-then-right password. Deepened: `_process_connect`, `_process_sql` and `add_connection` are translated statement by "
-            "statement from the source on every run (Gen/DatabaseTr.lean) and PROVED EQUAL to the model (C17_tr_*); shut-down "
-            "duration 0; backup_server_ip None; the FTP client on the database host stopped / paused / disabled / uninstalled; the "
-            "service uninstalled; a co-located database client owning port 5432; folder and backup-copy deletion; a saturated "
-            "link as an adversarial input of backup / restore / tick; DataManipulationBot and RansomwareScript driven through "
-            "attack() and their execute requests (stage machine with both Bernoulli outcomes as inputs). Tie: status codes, guard tables, health sets and comparison operators regenerated from "
-            "database_service.py / software.py / service.py (Gen/Database.lean + C17_gen_* obligations) and differential rig R-db "
-            "on real client/server/backup hosts behind a router (several concurrent clients, ransomware script, uninstall, "
-            "power events, ACL blocks in either direction, ticks).",
+            "with the service not running, the node not ON or the request path blocked, connect/query/disconnect/backup/restore "
+            "fail and leave the server unchanged; wrong-then-right password. ROUND 3: (1) backup / damage / restore cycles: "
+            "downloads/ is modelled explicitly (leftover kept / planted / corrupted / repaired / deleted, folder deleted) and "
+            "C17_restore_roundtrip_run proves, for EVERY state and EVERY operation sequence between a successful backup and a "
+            "restore (not deleting the backup host's copy, not re-installing the service), that a restore reporting success leaves "
+            "the database file with exactly the health it had when the backup was taken and the service GOOD; C17_restore_needs_path: "
+            "with either direction of the backup path closed, the backup host off, its FTP server or the database host's FTP client "
+            "not running, or a link refusing the file, a restore does not succeed and keeps file / health / table, whatever lies "
+            "under downloads/ (finding F-C17-2, repaired: a leftover was restored instead of the backup). (2) the number of live "
+            "connections never exceeds max_sessions along every run (C17_sessions_bounded_run), a full table admits nobody, a "
+            "disconnect frees exactly one slot. (3) `receive`, `terminate_connection`, `_process_connect`, `_process_sql`, "
+            "`add_connection`, `backup_database` and `restore_backup` are TRANSLATED statement by statement from the source on every "
+            "run (Gen/DatabaseTr.lean) and PROVED EQUAL to the model (C17_tr_*): the dispatcher's branch conditions, the sql gate, the "
+            "owner test of a disconnect, the order of the steps of a restore are proof obligations. (4) re-installing the database "
+            "service (refused / raises / replaces the instance: empty table, default limit, new uuid) and the FTP client at run time, "
+            "FTP-client restart / fix / scan with their countdowns, payloads the dispatcher does not recognise (answered 500), a "
+            "co-located client's own calls; shut-down duration 0; backup_server_ip None; a co-located client owning port 5432; a "
+            "saturated link as an adversarial input; DataManipulationBot / RansomwareScript. Tie: regenerated tables (Gen/Database.lean, "
+            "C17_gen_*), the translated functions, and differential rig R-db on real client/server/backup hosts behind a router.",
     "note": "C17-specific: the network between hosts is abstracted to per-direction reachability flags (validated by the rig "
-            "with real ACL rules, NIC state and node power); FTP transfer internals are modelled only as far as the database "
-            "uses them; link LOAD ACCOUNTING is C18's: here a link refusing the file-transfer frame is an input of the model "
-            "(all values covered by the theorems) whose actual value the rig observes on the real links; the file-system "
-            "request surface (C15) is out of scope.",
-    "technique": "Lean 4 theorems over an executable client/server/backup model; tied by regenerated tables and a differential rig",
+            "with real ACL rules, NIC state and node power); the FTP transfers are modelled as far as the database uses them "
+            "(`ftpSendFile` / `ftpRequestFile`, hand-written, validated by the rig; the database service's logic around them is "
+            "translated); link LOAD ACCOUNTING is C18's: here a link refusing the file-transfer frame is an input of the model "
+            "(all values covered by the theorems) whose actual value the rig observes on the real links; the outcomes of the "
+            "bot's Bernoulli trials are inputs of the model as well (the rig predicts them from the seed of Python's `random` "
+            "and checks the draws the real code made); the file-system request surface (C15) is out of scope.",
+    "technique": "Lean 4 theorems over an executable client/server/backup model; tied by regenerated tables, statement-by-statement "
+                 "translation of seven methods, and a differential rig",
     "design_ref": "5/C17",
 }
 MODULES = ["PrimaiteModel.Props.C17", "PrimaiteModel.Props.C17Run", "PrimaiteModel.Props.C17Recv", "PrimaiteModel.Lemmas.DatabaseReach"]
@@ -43,7 +54,7 @@ EXE = "drv_c17"
 def _diff_case(case: dict):
     impl = rig.run_impl(case)
     lines = rig.model_lines(case)
-    model = run_driver(EXE, lines)
+    model = rig.align(impl, run_driver(EXE, lines))
     for i, (a, b) in enumerate(zip(impl, model)):
         if a != b:
             return False, impl, model, i, lines
@@ -143,7 +154,7 @@ def run(ctx: Ctx):
     shrunk_per_sig: dict = {}
     t_shrink0 = [time.time()]
     for (name, case), impl, (st, ln) in zip(cases, impl_all, bounds):
-        model = model_all[st:st + ln]
+        model = rig.align(impl, model_all[st:st + ln])
         lines = lines_all[st:st + ln]
         ctx.cov["traces_validated_against_impl"] += 1
         ctx.case(case, rig.nontrivial(model))
@@ -174,6 +185,8 @@ def run(ctx: Ctx):
                 ctx.count(f"saturated:{w[0]}:" + "".join(w[1:]))
             if w[0] == "adm":
                 ctx.count("op:adm:" + ":".join(w[1:3] if w[1] == "ftpc" else w[1:2]))
+            if m.endswith("| LOOP"):
+                ctx.count("co:reply-loop(the real call does not return; explicit outcome, trace ends)")
             if w[0] in ("dl", "co", "rj"):
                 ctx.count(f"op:{w[0]}:{w[-1] if w[0] != 'dl' else w[1]}")
             if w[0] == "svcin":
